@@ -707,6 +707,44 @@ def rule_rehook_rearms(ctx: Ctx) -> RuleResult:
     return rr
 
 
+def rule_modifier_names(ctx: Ctx) -> RuleResult:
+    """'reported with its documented name': the names of modified keys are generated (escape_modifier(digit) + key)
+    when the table is built, so a slip in that helper is in every entry and in no single place of the table source.
+    The folded table is checked as data: (a) the modifier words in front of a key name are a strictly increasing
+    selection of shift, meta, ctrl - none twice, none out of order; (b) for the xterm forms CSI 1 ; d X and
+    CSI n ; d ~ the words are exactly the bits of d - 1 (1 shift, 2 alt = meta, 4 ctrl - xterm's ctlseqs).  Seed
+    C05-r8a made the repetition count of 'meta ' the masked bit itself (2): 'meta meta up'."""
+    import re as _re
+
+    from ..consteval import fold_module_name
+
+    p = ctx.p
+    rr = RuleResult("TAB", "C05.18", "every generated key name carries each modifier word at most once, in the order shift meta ctrl, and the xterm modifier digit d yields the bits of d - 1", floor=100)
+    m = p.modules["urwid.display.escape"]
+    seqs = fold_module_name(p, m, "input_sequences")
+    order = ["shift", "meta", "ctrl"]
+    for k, v in seqs:
+        if not isinstance(v, str) or " " not in v:
+            continue
+        words = v.split(" ")
+        mods = [w for w in words[:-1]]
+        if not all(w in order for w in mods):
+            continue  # 'mouse ...' and other multi-word names
+        idx = [order.index(w) for w in mods]
+        ok = all(a < b for a, b in zip(idx, idx[1:]))
+        want = None
+        mm = _re.fullmatch(r"\[(\d+);(\d)([A-Za-z~])", k)
+        if mm:
+            bits = int(mm.group(2)) - 1
+            want = [w for w, b in zip(order, (1, 2, 4)) if bits & b]
+        rr.inst(f"{k!r}", True, {"sequence": k, "name": v, "xterm_modifiers": want} if len(rr.samples) < 6 else None)
+        if not ok:
+            rr.add(finding("TAB", "display.escape.input_sequences", None, f"the sequence ESC {k} is named {v!r}: a modifier word is repeated or out of the order shift meta ctrl - the key is decoded but not reported with its documented name (no handler matches it)", construct=f"malformed modifier words in {v!r}", file=m.relpath))
+        elif want is not None and mods != want:
+            rr.add(finding("TAB", "display.escape.input_sequences", None, f"the sequence ESC {k} carries the xterm modifier digit {mm.group(2)} (= {' + '.join(want) or 'none'}) but is named {v!r}", construct=f"modifier digit {mm.group(2)} named {' '.join(mods)}", file=m.relpath))
+    return rr
+
+
 def rule_wake_reason(ctx: Ctx) -> RuleResult:
     """The synchronous completion step waits complete_wait on *all* input descriptors - the terminal and the pipe
     the SIGWINCH handler writes to.  Only the terminal staying silent for complete_wait means 'the timeout expired';
@@ -735,19 +773,29 @@ def rule_wake_reason(ctx: Ctx) -> RuleResult:
                     continue  # the parse keeps waiting: nothing is decoded early
                 # names the flag is computed from, followed through their reaching definitions
                 seen, todo, uses_wait = set(), [(v, cn[0])], False
+                loose = None  # the wake-up list used otherwise than compared with the resize descriptor
                 while todo and not uses_wait:
                     e, at = todo.pop()
                     if any(x is w for x in ast.walk(e)):
                         uses_wait = True
                         break
+                    par = {id(ch): pa for pa in ast.walk(e) for ch in ast.iter_child_nodes(pa)}
                     for x in ast.walk(e):
                         if isinstance(x, ast.Name) and isinstance(x.ctx, ast.Load):
                             for val, _how, dn in du.reaching(x.id, at):
+                                if val is w or (isinstance(val, ast.AST) and any(y is w for y in ast.walk(val))):
+                                    pa = par.get(id(x))
+                                    if not (isinstance(pa, ast.Compare) and isinstance(pa.ops[0], (ast.Eq, ast.NotEq)) and "_resize_pipe" in ast.unparse(pa)):
+                                        loose = e
                                 if (x.id, dn.id) in seen:
                                     continue
                                 seen.add((x.id, dn.id))
                                 if val is not None:
                                     todo.append((val, dn))
+                if uses_wait and loose is not None:
+                    rr.inst(f"{short(fi)}: {norm(c, 40)}", True, {"wait": norm(w, 50), "parse": norm(c, 70), "wake_reason_used_as": norm(loose, 60)})
+                    rr.add(finding("FLOW", fi, c, f"wait_for_more of `{norm(c, 60)}` takes the list of woken descriptors as a plain truth value (`{norm(loose, 50)}`): only 'the resize pipe alone' says that the sequence has not had its time yet - a terminal at end of file stays readable for ever, every pass finds it 'woken', parses the same pending bytes again and the loop never ends (get_input() spins instead of decoding the bytes as they stand)", construct=f"{fi.name}: any wake-up postpones the timeout decode"))
+                    continue
                 rr.inst(f"{short(fi)}: {norm(c, 40)}", True, {"wait": norm(w, 50), "parse": norm(c, 70), "flag_uses_wake_reason": uses_wait})
                 if not uses_wait:
                     rr.add(finding("FLOW", fi, c, f"`{norm(c, 70)}` decides wait_for_more without looking at what `{norm(w, 50)}` returned: the wait also ends when the resize pipe becomes readable, so a SIGWINCH inside the completion window makes the pending bytes decode as they stand (ESC | resize | [A gives 'esc', '[', 'A') although the timeout has not expired", construct=f"{fi.name}: wake-up reason not part of wait_for_more"))
@@ -784,6 +832,7 @@ def run(ctx: Ctx):
     out.append(rule_x10_coordinates(ctx))
     out.append(rule_rehook_rearms(ctx))
     out.append(rule_wake_reason(ctx))
+    out.append(rule_modifier_names(ctx))
     from ..rules import nameprefix
 
     out.append(nameprefix.run_nameprefix(ctx.p, "C05.14", ("urwid.display", "urwid.util", "urwid.event_loop.main_loop"), floor=3))
